@@ -18,7 +18,12 @@ syntactic shape raises SiteError, which the build records as a broken obligation
     (the element-wise meaning of a masked update; this rule is part of the trusted translator).
  4. `s_calc_axis_elt` — the element expression `a if a >= 0 else a + self.ndim` of the generator in
     `COO._reduce_calc`.
- 5. pins: source lines that Model/Reduce.v transcribes by hand must be present verbatim."""
+ 5. `s_mean_dtype`, `s_var_dtype` — the dtype-promotion decisions of `SparseArray.mean` (`if dtype is None: ...`
+    giving the result dtype and the accumulation dtype) and `SparseArray.var`, over dtype codes
+    (DTYPE_CODES).  A class test `issubclass(<d>.type, A | B)` / `np.issubdtype(<d>, A)` is evaluated
+    against NumPy's scalar-type hierarchy (CLASS_MEMBERS) into the list of dtype codes it accepts,
+    emitted as `s_<fn>_test<k>_kinds`; the test expression itself becomes membership in that list.
+ 6. pins: source lines that Model/Reduce.v transcribes by hand must be present verbatim."""
 import ast
 import hashlib
 import os
@@ -33,6 +38,16 @@ GCXS = "sparse/numba_backend/_compressed/compressed.py"
 
 UFUNC_CODES = {"add": 0, "multiply": 1, "minimum": 2, "maximum": 3, "logical_or": 4, "logical_and": 5,
                "bitwise_or": 6, "bitwise_and": 7, "bitwise_xor": 8, "power": 9}
+
+# dtype codes and NumPy's abstract scalar types as sets of codes
+DTYPE_CODES = {"bool": 0, "int8": 1, "int16": 2, "int32": 3, "int64": 4, "uint8": 5, "uint16": 6, "uint32": 7,
+               "uint64": 8, "float16": 9, "float32": 10, "float64": 11, "complex64": 12, "complex128": 13}
+_SIGNED, _UNSIGNED, _FLOAT, _COMPLEX = [1, 2, 3, 4], [5, 6, 7, 8], [9, 10, 11], [12, 13]
+CLASS_MEMBERS = {"np.bool_": [0], "np.integer": _SIGNED + _UNSIGNED, "np.signedinteger": _SIGNED,
+                 "np.unsignedinteger": _UNSIGNED, "np.floating": _FLOAT, "np.complexfloating": _COMPLEX,
+                 "np.inexact": _FLOAT + _COMPLEX, "np.number": _SIGNED + _UNSIGNED + _FLOAT + _COMPLEX,
+                 "np.float16": [9], "np.float32": [10], "np.float64": [11], "np.generic": list(range(14))}
+DTYPE_LITERALS = {"np.dtype('f8')": 11, "np.dtype('f4')": 10, "np.dtype('f2')": 9}
 
 # (file, function, statement text as ast.unparse prints it) that the hand-written model transcribes
 PINS = [
@@ -127,6 +142,90 @@ def _translate(name, stmts, params, result, extern, frag_names, what):
     h = hashlib.sha256(seg.encode()).hexdigest()[:16]
     args = " ".join(f"({py2v.cname(p)} : pyv)" for p in params)
     return (f"(* {what} srchash={h} *)\nDefinition {name} {args} : res pyv :=\n{body}.\n"), h
+
+
+def _class_members(e):
+    """codes accepted by a class expression: np.X or a union A | B | ..."""
+    if isinstance(e, ast.BinOp) and isinstance(e.op, ast.BitOr):
+        return sorted(set(_class_members(e.left)) | set(_class_members(e.right)))
+    if isinstance(e, ast.Tuple):
+        return sorted(set().union(*[set(_class_members(x)) for x in e.elts]))
+    t = ast.unparse(e)
+    if t not in CLASS_MEMBERS:
+        raise SiteError(f"dtype class `{t}` outside the scalar-type table")
+    return list(CLASS_MEMBERS[t])
+
+
+def _dtype_tests(stmts, subject_names):
+    """every class test in stmts -> (source text, subject Coq name, accepted codes)"""
+    out = []
+    for st in stmts:
+        for n in ast.walk(st):
+            if not isinstance(n, ast.Call):
+                continue
+            f = ast.unparse(n.func)
+            if f == "issubclass" and len(n.args) == 2 and isinstance(n.args[0], ast.Attribute) and n.args[0].attr == "type":
+                subj = ast.unparse(n.args[0].value)
+            elif f == "np.issubdtype" and len(n.args) == 2:
+                subj = ast.unparse(n.args[0])
+            elif f in ("issubclass", "np.issubdtype", "isinstance"):
+                raise SiteError(f"dtype test `{ast.unparse(n)}` has an unexpected shape")
+            else:
+                continue
+            if subj not in subject_names:
+                raise SiteError(f"dtype test on `{subj}`: unknown subject")
+            out.append((ast.unparse(n), subject_names[subj], _class_members(n.args[1])))
+    return out
+
+
+class _SplitChained(ast.NodeTransformer):
+    """a = b = v  ->  b = v; a = v   (v is a pure expression here)"""
+
+    def visit_Assign(self, node):
+        if len(node.targets) > 1:
+            return [ast.Assign(targets=[t], value=node.value, lineno=0) for t in reversed(node.targets)]
+        return node
+
+
+def _dtype_fragment(out, rep, tree, qual, name, pick, params, result, what):
+    fn = _fn(tree, qual)
+    st = None
+    for n in fn.body:
+        if isinstance(n, ast.If) and pick(ast.unparse(n.test)):
+            st = n
+            break
+    if st is None:
+        raise SiteError(f"{qual}: the dtype decision statement was not found")
+    blk = ast.parse(ast.unparse(st)).body
+    blk = [ast.fix_missing_locations(_SplitChained().visit(b)) for b in blk]
+    extern = {"self.dtype": "Ok self_dtype"}
+    for lit, code in DTYPE_LITERALS.items():
+        if any(lit in ast.unparse(b) for b in blk):
+            extern[lit] = f"Ok (VInt {code})"
+    tests = _dtype_tests(blk, {"self.dtype": "self_dtype", "dtype": "dtype"})
+    if not tests:
+        raise SiteError(f"{qual}: no dtype class test found")
+    for k, (src, subj, codes) in enumerate(tests, 1):
+        out.append(f"(* codes of the dtypes accepted by `{src}` *)\n"
+                   f"Definition {name}_test{k}_kinds : list Z := [%s].\n" % "; ".join(str(c) for c in codes))
+        extern[src] = f"ext_dtype_in {name}_test{k}_kinds {subj}"
+    if not any("self.dtype" == ast.unparse(n) for b in blk for n in ast.walk(b)
+               if isinstance(n, ast.Attribute) and not _inside_extern(n, b, extern)):
+        extern.pop("self.dtype")
+    text, h = _translate(name, blk, params, result, extern, {}, what)
+    out.append(text)
+    rep[name] = {"status": "ok", "hash": h, "tests": [(t[0], t[2]) for t in tests]}
+
+
+def _inside_extern(node, root, extern):
+    """is `node` part of a sub-expression of root whose source text is an extern key (other than itself)?"""
+    for n in ast.walk(root):
+        if n is node:
+            continue
+        if isinstance(n, ast.expr) and ast.unparse(n) in extern and ast.unparse(n) != "self.dtype":
+            if any(m is node for m in ast.walk(n)):
+                return True
+    return False
 
 
 class _MaskedAssign(ast.NodeTransformer):
@@ -257,7 +356,15 @@ def generate(repo):
     out.append(text)
     rep["s_calc_axis_elt"] = {"status": "ok", "hash": h}
 
-    # 5. pins
+    # 5. dtype promotion of mean / var
+    _dtype_fragment(out, rep, sa, "SparseArray.mean", "s_mean_dtype", lambda t: t == "dtype is None",
+                    ["self_dtype", "dtype"], ["dtype", "inter_dtype"],
+                    "SparseArray.mean, `if dtype is None: ... else: ...` over dtype codes")
+    _dtype_fragment(out, rep, sa, "SparseArray.var", "s_var_dtype", lambda t: t.startswith("dtype is None and "),
+                    ["self_dtype", "dtype"], ["dtype"],
+                    "SparseArray.var, `if dtype is None and <integer or bool>: dtype = f8` over dtype codes")
+
+    # 6. pins
     def stmts_of(rel, qual):
         f = _fn(trees[rel], qual)
         return [n for n in ast.walk(f) if isinstance(n, ast.stmt)]
